@@ -55,7 +55,7 @@ def replay(f, w):
         if blocked: return True, 'native threads driven along the witness schedule never return (deadlock): ' + blocked[0] + ' ' + info, lines
         return False, 'native threads all returned ' + info, lines
     if blocked: return False, 'native run blocked ' + info, lines
-    if f['prop'] == 'C03':
+    if f['prop'] in ('C03', 'C14'):
         ip = [i for i, l in enumerate(lines) if l.startswith('conc_progress')]
         ex = []
         if ip:
@@ -65,6 +65,17 @@ def replay(f, w):
         if len(ex) >= 2 and w.get('execs_conc') is not None:
             d = ex[1] - ex[0]
             if d == w['execs_conc'] and 'stuck=true' not in info: return True, f"natively the body ran {d} times during the concurrent phase, as on the interpreted schedule on which the claim fails " + info, lines
+            if ('before the concurrent phase' in f.get('clause', '') or 'in flight' in f.get('clause', '')) and w.get('fills'):
+                # the witness needs a lock-held window the controller cannot hold open (the holder has no acquisition inside it):
+                # unscheduled repetition of the stored call on 8 threads; any execution of the body confirms the claim's failure
+                subs = wrap.subjects(); rec = subs[w['subject']]
+                if not rec['recv']:
+                    L = ['scenario subj'] + [f"call 0 {w['subject']} 0 " + ' '.join(map(str, t)) for t in w['fills']] + [f"stress 8 30000 {w['subject']} 0 " + ' '.join(map(str, w['fills'][0])), 'end']
+                    o2, _e = R.run_scenarios('\n'.join(L) + '\n', timeout=120)
+                    st = [l for l in (o2[0] if o2 else []) if l.startswith('stress ')]
+                    if st and int(st[0].split()[2]) > 0:
+                        return True, f"natively, {st[0].split()[1]} concurrent repetitions of the stored call ran the body {st[0].split()[2]} more times (unscheduled stress run; the interpreted schedule needs a window inside a guard) " + info, o2[0]
+                    return False, f"natively the body never ran again in {st[0].split()[1] if st else '?'} concurrent repetitions " + info, lines
             return False, f"natively the body ran {d} times during the concurrent phase (interpreter: {w['execs_conc']}) " + info, lines
         return False, 'execution counts not observable ' + info, lines
     if f['prop'] == 'C15':
